@@ -242,6 +242,8 @@ func init() {
 					}
 				}
 			}
+			js = append(js, job("c02", "Trigger", "c02/api/trigger-irq"), job("c02", "Reset", "c02/api/reset"))
+			js = append(js, job("c02", "Fresh", "c02/api/fresh-cpus/opc2-rep", 0xC2), job("c02", "Fresh", "c02/api/fresh-cpus/opad-lda-a", 0xAD))
 			return js
 		},
 		Bounds:           []string{"one Step of each interpreter from one common arbitrary state: 256 opcodes x {4 native width settings, emulation mode}; all registers, hidden copies, D flag, stop latch, cycle counters, interrupt latch (none/NMI/IRQ) and 16 MiB memory symbolic", "any number of steps: by induction (equal post-states are a common pre-state again)", "the same step on a cpualt CPU made with InitFrom from the live one (native mode, no pending interrupt), which must also leave the original untouched"},
@@ -586,15 +588,10 @@ func init() {
 				job("c17", "MulDivMonotoneDiv", "c17/muldiv-monotone-div"),
 				job("c17", "Luminosity", "c17/luminosity"),
 			}
-			if tier == "thorough" {
-				for ch := 0; ch < 32; ch++ {
-					js = append(js, job("c17", "MulDivMonotone", fmt.Sprintf("c17/muldiv-monotone-ratio/ch%02d", ch), int64(ch)))
-				}
-			}
 			return js
 		},
 		Bounds:         []string{"colour: all 2^16 values; multiplicand: all 256; divisor: all 255 non-zero; channel triples: all 2^24", "loop-free code; no unwinding bound"},
-		Outside:        []string{"divisor 0 (documented precondition; Go panics)"},
+		Outside:        []string{"divisor 0 (documented precondition; Go panics)", "monotonicity in the ratio mul/div across different divisors (two symbolic multiplier/divisor pairs): unknown after 60 s per query on z3 5.1.0, cvc5 and cvc5 --solve-bv-as-int=sum, so it is not claimed by a query; it follows from the discharged obligation that every channel equals min(floor(ch*mul/div),31) exactly, floor being monotone"},
 		Exhaustive:     true,
 		Explanation:    "color15 functions executed symbolically; reference = per-channel min(floor(ch*mul/div),31) computed in 32 bits",
 		TimeoutQuickMs: 8000, TimeoutThoroughMs: 60000, Fallbacks: []string{"cvc5-int", "cvc5"},
@@ -885,6 +882,7 @@ func c13Jobs(tier string) []sym.Job {
 		js = append(js, job("c13", "Route", fmt.Sprintf("c13/route/layout%03d", toBase9(l)), int64(l)))
 		js = append(js, job("c13", "Route24", fmt.Sprintf("c13/route24/layout%03d", toBase9(l)), int64(l)))
 	}
+	js = append(js, job("c13", "Devices", "c13/library-devices/ram+rom"))
 	for _, l := range []int{0, 1, 4, 1 + 9*3, 2 + 9*4 + 81*5} {
 		js = append(js, job("c13", "Misaligned", fmt.Sprintf("c13/misaligned/layout%03d/any-24-bit-range", toBase9(l)), int64(l), -1, -1))
 		for _, sg := range [][2]int{{9, 9}, {9, 12}, {4, 20}, {14, 15}} {
